@@ -668,6 +668,40 @@ static Result exec_c03_c05(MVal& plan, Stats& st) {
             }
         }
     }
+    // ---- C05: prefix consistency for the self-delimiting binary formats, for ANY input (seeds, corpus files, corrupted documents):
+    //      a reader stops after the first complete item, so if a strict prefix P of the input B decodes successfully then P holds a
+    //      complete item, B starts with the same item, and B must decode successfully to the same events.  A prefix that succeeds with
+    //      other events (or while B fails) was completed from bytes that never arrived.
+    if (c05 && !R.api.text && R.res.ok && L > 1 && ref.count("reader") && !ref["reader"].idkeys) {
+        const Outcome& whole = ref["reader"];
+        std::vector<size_t> cuts;
+        size_t step = L > 72 ? (L + 63) / 64 : 1;
+        for (size_t t = 1; t < L; t += step) cuts.push_back(t);
+        for (size_t t = L > 8 ? L - 8 : 1; t < L; ++t) if (step > 1) cuts.push_back(t);
+        if (plan.has("prefix_only")) { cuts.clear(); size_t t = (size_t)plan.getu("prefix_only"); if (t >= 1 && t < L) cuts.push_back(t); }
+        std::string saveB = R.B;
+        for (size_t t : cuts) {
+            if (!R.res.ok) break;
+            if (!R.want()) continue;
+            std::string prefix = saveB.substr(0, t);
+            R.B = prefix; R.cx.B = &R.B;
+            Outcome o = R.exec("reader", contig);
+            st.inc("faults.prefix_consistency_cut");
+            if (!o.violation.empty()) R.c05_flags(o, "reader", contig);
+            else if (o.error.empty() && !o.events.empty() && !o.idkeys && (!whole.error.empty() || o.events != whole.events)) {
+                st.inc("reach.prefix_decoded_successfully");
+                R.fail("prefix-decodes-differently", "the first " + std::to_string(t) + " of " + std::to_string(L) + " bytes decode successfully to " + shorten(o.events, 160) + " but the whole input " +
+                       (whole.error.empty() ? "decodes to " + shorten(whole.events, 160) : "fails (" + whole.error + ")") + ": the item was completed from bytes that never arrived", "reader", contig);
+            }
+            else if (o.error.empty() && !o.events.empty()) st.inc("reach.prefix_is_complete_item");
+            st.nontrivial(mix3(fnv1a(R.fmt + "prefixcons"), t, fnv1a(saveB)));
+            if (!R.res.ok) {                  // R.fail narrowed the plan to the prefix; a replay needs the whole input and the cut
+                plan.set("input_hex", MVal::str(to_hex(saveB))); plan.set("prefix_only", MVal::uinteger(t)); plan.set("deliveries", MVal::arr());
+                return R.res;
+            }
+        }
+        R.B = saveB; R.cx.B = &R.B;
+    }
     R.res.hash = R.h;
     return R.res;
 }
